@@ -146,6 +146,9 @@ pub enum BlockKind {
     Flag,
     Arg,
     Word,
+    /// an undeclared `-x` / `--name` item: not a named occurrence of the level; it keeps its
+    /// place among the words while the declared occurrences move around it
+    Foreign,
 }
 #[derive(Clone, Debug)]
 pub struct Block {
@@ -201,10 +204,22 @@ pub fn segment(t: &Table, argv: &[Tok]) -> Option<Segmented> {
             }
             Ev::PosWord(_) => unreachable!("lexing stops before --"),
             e => {
-                let (info, inline) = match e {
-                    Ev::Long(n, v) => (t.longs.get(n.as_str())?, v.clone()),
-                    Ev::Short(c, v) => (t.shorts.get(c)?, v.clone()),
+                let (found, inline) = match e {
+                    Ev::Long(n, v) => (t.longs.get(n.as_str()), v.clone()),
+                    Ev::Short(c, v) => (t.shorts.get(c), v.clone()),
                     _ => unreachable!(),
+                };
+                let info = match found {
+                    Some(i) => i,
+                    None => {
+                        // undeclared name: a foreign item of its own (not inside a cluster, no value)
+                        if inline.is_some() || (i > 0 && src[i - 1] == ti) || (i + 1 < evs.len() && src[i + 1] == ti) {
+                            return None;
+                        }
+                        blocks.push(Block { kind: BlockKind::Foreign, start: ti, end: ti + 1, fields: vec![], value: None, multi: false, ty: Ty::Os, transformed: false });
+                        i += 1;
+                        continue;
+                    }
                 };
                 let mut end = ti + 1;
                 let mut value = None;
@@ -226,7 +241,7 @@ pub fn segment(t: &Table, argv: &[Tok]) -> Option<Segmented> {
                 }
                 // merge with the previous block when it came from the same token (cluster)
                 match blocks.last_mut() {
-                    Some(b) if b.start == ti && b.kind != BlockKind::Word => {
+                    Some(b) if b.start == ti && b.kind != BlockKind::Word && b.kind != BlockKind::Foreign => {
                         b.fields.push(info.field);
                         b.end = end;
                         b.multi &= info.multi;
@@ -251,7 +266,8 @@ pub fn segment(t: &Table, argv: &[Tok]) -> Option<Segmented> {
 pub fn orderings(blocks: &[Block], f: &mut dyn FnMut(&[usize])) {
     let n = blocks.len();
     let conflict = |a: &Block, b: &Block| -> bool {
-        if a.kind == BlockKind::Word && b.kind == BlockKind::Word {
+        let wordish = |k: &BlockKind| matches!(k, BlockKind::Word | BlockKind::Foreign);
+        if wordish(&a.kind) && wordish(&b.kind) {
             return true;
         }
         a.fields.iter().any(|x| b.fields.contains(x))
